@@ -68,4 +68,18 @@ CHECKS = {
         technique='static path-sensitive null-check / ownership dataflow over every allocation site (clang JSON AST, CFG, summaries)',
         design_ref='3-C, 4-C15',
     ),
+    'C12': dict(
+        category='other',
+        text='Decides the aliasing clauses, not byte-for-byte equality: R1 no raw key/value pointer parameter of any public '
+             'container function is ever stored into memory (72 parameter obligations, tracked through locals, offsets, casts, '
+             'strchr-like derivations and callee summaries); R3 under newmem == true (26 accessors) and unconditionally for '
+             'pop*/find_min/find_max/toarray/tostring/static-hash get* (22 accessors) every returned pointer and every cursor '
+             'name/data store originates from a fresh allocation; R2 recorded size = allocated size = copied length. These are '
+             'exactly the three failure modes the property names (kept caller pointer, internal pointer handed out, copy one '
+             'byte short / wrong size).',
+        note='Pointer provenance over reaching definitions with infeasible edges pruned under the flag assumption; libc callees '
+             'do not retain arguments; qhasharr(memory) is the one named exemption; content equality of the copies is not decided.',
+        technique='static pointer-provenance / escape analysis over reaching definitions with interprocedural summaries (clang JSON AST)',
+        design_ref='3-E, 4-C12',
+    ),
 }
